@@ -126,6 +126,73 @@ def check_ownerless(case, acc):
     acc.tag("kept_node_below_an_unreferenced_root", nontrivial)
 
 
+def check_evict(case, acc):
+    """A legal parent assignment during which one of the moving node's own hooks detaches the first other child of the
+    hook's parent argument ('the newcomer evicts a sibling'): the eviction and the assignment both have their specified effect."""
+    family = mut.family_of(case["cls"])
+    rec, universe = mut.make_universe(case["cls"], case["state"], "parent")
+    pre = mut.snapshot(universe, rec.labels)
+    op, hook = case["op"], case["hook"]
+    x, p = op[1], op[2]
+    q = pre[x][0]
+    verdict, plain = mut.spec(pre, op, family)
+    if verdict != "ok":
+        return
+    fires = plain != pre and ((hook in ("pre_detach", "post_detach") and q is not None) or (hook in ("pre_attach", "post_attach") and p is not None))
+    expected = plain
+    if fires:
+        arg = q if hook.endswith("detach") else p
+        victim = next((c for c in pre[arg][1] if c != x), None)
+        if victim is not None:
+            _, after_evict = mut.spec(pre, ["parent", victim, None], family)
+            verdict2, expected = mut.spec(after_evict, op, family)
+            if verdict2 != "ok":
+                return
+    rec.begin_call({"evict": [[hook, x]]})
+    exc = mut.execute(universe, op)
+    rec.begin_call(None)
+    post = mut.snapshot(universe, rec.labels)
+    if exc is not None and not isinstance(exc, AssertionError):
+        raise Violation("spurious-refusal", "%s on %s with a %s hook that evicts a sibling raised %s: %s" % (op, pre, hook, type(exc).__name__, exc))
+    if post != expected:
+        raise Violation("effect", "%s on %s with a %s hook that evicts the first other child of its parent argument: expected %s got %s" % (op, pre, hook, expected, post))
+    acc.nontrivial(fires)
+    acc.tag("calls_with_an_evicting_hook")
+
+
+def check_effectful(case, acc):
+    """n.children = xs where xs is a lazily evaluated generator whose evaluation itself attaches new nodes to n (a 'sync the
+    children with this name list' helper that re-uses existing children and creates the missing ones with parent=n):
+    afterwards n.children == tuple(xs), in that order."""
+    cls = {"Node": Node, "SlotLM": nodes.SlotLM, "PlainNM": nodes.PlainNM, "DictLM": nodes.DictLM}[case["cls"]]
+    n = cls("n")
+    old = [cls("old%d" % i, parent=n) for i in range(case["old"])]
+    made = []
+
+    def wanted():
+        for token in case["order"]:
+            if isinstance(token, int):
+                yield old[token]
+            else:
+                fresh = cls(token, parent=n)
+                made.append(fresh)
+                yield fresh
+
+    n.children = wanted()
+    expect = []
+    it = iter(made)
+    for token in case["order"]:
+        expect.append(old[token] if isinstance(token, int) else next(it))
+    got = n.children
+    if len(got) != len(expect) or any(a is not b for a, b in zip(got, expect)):
+        raise Violation("effect", "%s: children assigned from a generator that creates nodes with parent=n on the fly: order %s, got %s" % (case["cls"], case["order"], [c.name for c in got]))
+    for node in old:
+        if (node.parent is n) != any(node is e for e in expect):
+            raise Violation("effect", "%s: former child %s has the wrong parent after the assignment" % (case["cls"], node.name))
+    acc.nontrivial(True)
+    acc.tag("children_from_a_generator_with_side_effects")
+
+
 def check_deep(case, acc):
     """Structural calls at the bottom of a chain that is deeper than the interpreter's recursion limit: the loop check
     and the link updates walk parent chains iteratively, so the calls have exactly the specified effect there too."""
@@ -176,6 +243,10 @@ def check_deep(case, acc):
 
 
 def check_case(case, acc):
+    if case.get("kind") == "evict":
+        return check_evict(case, acc)
+    if case.get("kind") == "effectful":
+        return check_effectful(case, acc)
     if case.get("repr_boom"):
         # the same case with node classes whose repr()/str() cannot be evaluated: a legal call never needs them
         mut.REPR_BOOM[0] = True
@@ -334,6 +405,10 @@ def plan(tier, seed):
     for cls in ("Node", "AnyNode", "PlainNM", "SlotLM"):
         for route in ("parent", "children"):
             tasks.append({"engine": "deep", "cls": cls, "route": route})
+    for cls in ("HNM", "HLM"):
+        for n in (2, 3, 4):
+            tasks.append({"engine": "evict", "cls": cls, "n": n})
+    tasks.append({"engine": "effectful"})
     for spec in ("Node", "SlotLM", "AnyNode", "SymlinkNode"):
         for n, length in ([(2, 3), (3, 2)] if tier == "quick" else [(2, 4), (3, 3)]):
             shards = 4 if (n, length) == (2, 3) else nshards
@@ -364,6 +439,14 @@ def random_cases(draw):
 
 
 def run_task(task, acc):
+    if task["engine"] == "effectful":
+        orders = [[0, "x"], ["x", 0], [1, "x", "y", 0], ["x", 1, "y"], [0, 1, "x"], ["x", "y"], [1, "x"], [2, "x", 0, "y", 1]]
+        cases = ({"kind": "effectful", "cls": cls, "old": 3, "order": order} for cls in ("Node", "SlotLM", "PlainNM", "DictLM") for order in orders)
+        return acc.run_enum(check_case, cases)
+    if task["engine"] == "evict":
+        n = task["n"]
+        cases = ({"kind": "evict", "cls": task["cls"], "state": state, "op": ["parent", x, p], "hook": hook} for state, route in mut.enum_states(n, 0, 1) if route == "parent" for x in range(n) for p in [None] + list(range(n)) for hook in ("pre_detach", "post_detach", "pre_attach", "post_attach"))
+        return acc.run_enum(check_case, cases)
     if task["engine"] == "deep":
         case = {"kind": "deep", "cls": task["cls"], "route": task["route"]}
         exc = acc.evaluate(check_case, case, enumerated=False)
